@@ -186,6 +186,9 @@ func c15Requests(c *sim.Case) {
 	if ho.o.ViaServer {
 		ho.o.TriggerRules = coveringRules(c, "/a")
 	}
+	if !ho.o.ViaServer && sim.Weighted(c, "idle-timeout", 2, 1) == 1 {
+		ho.o.Idle = []time.Duration{30 * time.Second, 5 * time.Minute, 30 * time.Minute}[sim.Pick(c, "idle", 3)]
+	}
 	m := &c15Mon{}
 	h := ho.build(c, m)
 	defer h.w.Close()
@@ -194,8 +197,14 @@ func c15Requests(c *sim.Case) {
 	h.exec(&op{K: "login", B: 0, Target: "/a"})
 	h.exec(&op{K: "nav", B: 1, Target: "/a"})
 	sids := []string{h.bs[0].SID(), h.bs[1].SID(), "unknown"}
-	n := 1 + sim.Pick(c, "nreq", 12)
+	n := 1 + sim.Tail(c, "nreq", 12, 70)
 	for i := 0; i < n; i++ {
+		if !ho.o.ViaServer && sim.Weighted(c, "quiet", 9, 1) == 1 {
+			// time passes: what the abandoned logins of the requests so far left behind runs into the session limits
+			d := []time.Duration{time.Second, 10 * time.Minute, 3 * time.Hour, 25 * time.Hour}[sim.Pick(c, "quiet.d", 4)]
+			w.Clock.Advance(d)
+			c.Logf("quiet for %v", d)
+		}
 		var req *envoy.CheckRequest
 		shape := sim.Weighted(c, "shape", 1, 1, 1, 1, 12)
 		switch shape {
